@@ -36,6 +36,9 @@ const (
 	OpSeqRetSingle
 	// parser.End(): matches (zero-width) exactly at the end of the input
 	OpEnd
+	// terminal.Op(S): a multi-byte operator / keyword token (its node's Token() is S itself - also when S is a name the
+	// library uses for its own nodes: "EOF", "EMPTY", "SEQ", "NIL")
+	OpKw
 )
 
 var opNames = map[Op]string{OpSeqOf: "Seq", OpSeqTry: "SeqTry", OpSeqFirstOrAll: "SeqFOA", OpAny: "Any", OpChoice: "Choice",
@@ -45,6 +48,7 @@ var opNames = map[Op]string{OpSeqOf: "Seq", OpSeqTry: "SeqTry", OpSeqFirstOrAll:
 type Expr struct {
 	Op   Op      `json:"op"`
 	C    byte    `json:"c,omitempty"`
+	S    string  `json:"s,omitempty"`
 	Kids []*Expr `json:"kids,omitempty"`
 	NT   int     `json:"nt,omitempty"`
 	ID   int     `json:"id"`
@@ -78,6 +82,12 @@ func (g *Grammar) Rune(c byte) *Expr {
 	return e
 }
 
+func (g *Grammar) Kw(s string) *Expr {
+	e := g.Mk(OpKw)
+	e.S = s
+	return e
+}
+
 func (g *Grammar) Ref(nt int) *Expr {
 	e := g.Mk(OpNT)
 	e.NT = nt
@@ -97,6 +107,8 @@ func (e *Expr) String() string {
 		return fmt.Sprintf("N%d", e.NT)
 	case OpEnd:
 		return "End"
+	case OpKw:
+		return fmt.Sprintf("%q", e.S)
 	case OpRTrim, OpLTrim:
 		return fmt.Sprintf("%s(%s,ws%d)", opNames[e.Op], e.Kids[0], e.C)
 	}
@@ -210,7 +222,7 @@ func Token(op Op) string {
 // without consuming input" (over-approximation).
 func exprNullable(e *Expr, nl []bool) bool {
 	switch e.Op {
-	case OpRune:
+	case OpRune, OpKw:
 		return false
 	case OpEmpty, OpOpt, OpMany, OpSepBy, OpEnd:
 		return true
@@ -498,7 +510,7 @@ func (g *Grammar) RefModelled() bool {
 				})
 				return
 			}
-			if e.Op > OpNT && e.Op != OpLTrim && e.Op != OpEnd {
+			if e.Op > OpNT && e.Op != OpLTrim && e.Op != OpEnd && e.Op != OpKw {
 				ok = false
 			}
 		})
